@@ -4,8 +4,22 @@ package main
 // constructor folds constants, so the result is a constant).
 
 func evalTerm(t *Term, model map[string]uint64) uint64 {
-	st := NewTermStore()
-	memo := map[*Term]*Term{}
+	return newTermEval(model).eval(t)
+}
+
+// termEval evaluates several terms under one model, sharing sub-term results.
+type termEval struct {
+	st    *TermStore
+	memo  map[*Term]*Term
+	model map[string]uint64
+}
+
+func newTermEval(model map[string]uint64) *termEval {
+	return &termEval{st: NewTermStore(), memo: map[*Term]*Term{}, model: model}
+}
+
+func (te *termEval) eval(t *Term) uint64 {
+	st, memo, model := te.st, te.memo, te.model
 	var rec func(t *Term) *Term
 	rec = func(t *Term) *Term {
 		if t.Op == OpConst {
